@@ -392,7 +392,9 @@ fn check(th: &mut Thread, case: &Case) -> Outcome {
                 }
             }
             // bookkeeping for the non-vacuity classes: would the strict reading accept here?
-            if final_ok && in_window_at(now) {
+            // expectation (non-vacuity bookkeeping only): exact to the nanosecond, like the server
+            let strictly_in_window = !expires_soon || now <= expire_at as u128 * 1_000_000_000;
+            if final_ok && in_window_at(now) && strictly_in_window {
                 model_expect_success = true;
                 if resp != Resp::Success {
                     log.class("model-valid-sequence-not-successful");
